@@ -172,7 +172,7 @@ def check_string(s, embed, fails, counters):
 
 class FragmentSpec(Spec):
     prop = 'C14'
-    case_timeout = 1800          # one case = one shard; a hang of a single parse is bounded by the shard
+    case_timeout = 600           # one case = one shard; a hang of a single parse is bounded by the shard
     batch = 1
     timeout_is_violation = True
     title = 'strings of fragments through parse / parse_docstr_examples / parse_doctestables'
